@@ -32,7 +32,7 @@ def readWriteCloser_Close : List String := ["closeFunc"]
 def readWriteCloser_CloseWrite : List String := ["closeWriteFunc", "cw.CloseWrite"]
 def runDataCopy : List String := ["iocopy.UDP", "iocopy.Bidirectional", "bytesSent.Add", "bytesRecv.Add", "t.Close"]
 def tryCloseWrite : List String := ["tcpConn.CloseWrite", "cw.CloseWrite"]
-def udpBatchWriter_add : List String := ["len", "len", "len", "len"]
+def udpBatchWriter_add : List String := ["len", "len"]
 def udpBatchWriter_flush : List String := ["pktConn.WriteBatch", "conn.Write"]
 def udpTunnelConn_ReceivePacket : List String := ["GetReader", "make", "io.ReadFull", "make", "io.ReadFull"]
 def udpTunnelConn_SendPacket : List String := ["GetWriter", "make", "writer.Write", "writer.Write"]
